@@ -3,7 +3,7 @@
 (* Replay of the notes taken in the readiness functions of the client       *)
 (* subscriptions of one connection (tag verif: rdyNow, rdyOn,                *)
 (* rdyCollect, rdyFire, rdyDone, subRef, subUnref, subRefsClear, subLoaded,  *)
-(* subSent, subDeleted, unsend, dispose) against the micro-steps of          *)
+(* subToSend, subSent, subDeleted, unsend, dispose) against the micro-steps of          *)
 (* SubReadyOps: rdyOn is the first half of SROnLoaded, rdyCollect the end of *)
 (* SRCollect, rdyFire SRFire, rdyDone SRLoadedErr's count-down.              *)
 (* One tracked record per connection:                                        *)
@@ -26,14 +26,14 @@ SRTSt(x, sp) == SRTGet(x.st, sp, "loading")
 SRTRefs(x, sp) == SRTGet(x.refs, sp, {})
 SRTWait(x, sp) == SRTGet(x.wait, sp, <<>>)
 SRTTocol(x, sp) == SRTGet(x.tocol, sp, <<>>)
-SRTReady(x, sp) == SRTSt(x, sp) \in {"ready", "sent", "deleted"}
+SRTReady(x, sp) == SRTSt(x, sp) \in {"ready", "tosend", "sent", "deleted"}   \* IsReady: state >= stateReady
 SRTName(x, sp) == SRTGet(x.rid, sp, "?")
 
 SRTRes(x, errs) == [x |-> x, errs |-> errs]
 SRTErr(p, m) == [p |-> p, m |-> m, kf |-> ""]
 
 (* the state class the code reports (int(s.state)) against the tracked one *)
-SRTClass(n) == CASE n = 0 -> "disposed" [] n = 1 -> "loading" [] n = 2 -> "loaded" [] n = 3 -> "ready" [] n \in {4, 5} -> "sent" [] OTHER -> "deleted"
+SRTClass(n) == CASE n = 0 -> "disposed" [] n = 1 -> "loading" [] n = 2 -> "loaded" [] n = 3 -> "ready" [] n = 4 -> "tosend" [] n = 5 -> "sent" [] OTHER -> "deleted"
 SRTStateErr(x, r) ==
     IF "state" \in DOMAIN r /\ (SRTClass(r.state) = "loading") # (SRTSt(x, r.sp) = "loading")
     THEN {SRTErr("C02", "state " \o SRTClass(r.state) \o " at " \o r.kind \o ", SubReadyOps says " \o SRTSt(x, r.sp))} ELSE {}
@@ -45,6 +45,13 @@ SRTReach(x, todo, seen) ==
     ELSE LET n == CHOOSE n \in todo : TRUE
              kids == IF SRTReady(x, n) THEN {} ELSE SRTRefs(x, n)
          IN SRTReach(x, (todo \cup kids) \ (seen \cup {n}), seen \cup {n})
+
+RECURSIVE SRTBelow(_, _, _)
+(* everything reachable from the subscriptions in todo *)
+SRTBelow(x, todo, seen) ==
+    IF todo = {} THEN seen
+    ELSE LET n == CHOOSE n \in todo : TRUE
+         IN SRTBelow(x, (todo \cup SRTRefs(x, n)) \ (seen \cup {n}), seen \cup {n})
 
 SRTDropOne(sq, i) == IF \E k \in DOMAIN sq : sq[k] = i
                      THEN LET k0 == CHOOSE k \in DOMAIN sq : sq[k] = i IN [j \in 1..(Len(sq) - 1) |-> IF j < k0 THEN sq[j] ELSE sq[j + 1]]
@@ -64,10 +71,18 @@ SRTStep(x0, r) ==
             \* (a subscription marked sent while loading - reported then - is loaded after all)
             SRTRes([x EXCEPT !.st = SRTPut(@, r.sp, "loaded"), !.tocol = SRTPut(@, r.sp, SRTWait(x, r.sp)), !.wait = SRTPut(@, r.sp, <<>>), !.early = @ \ {r.sp}],
                    IF SRTSt(x, r.sp) # "loading" /\ r.sp \notin x.early THEN {SRTErr("C07", "Loaded ran on a subscription that is " \o SRTSt(x, r.sp))} ELSE {})
+      [] r.kind = "subToSend" ->
+            \* populateResources: the subscription's data is in the resource set being built (stateToSend).
+            \* finding KF-U, further consequence: a subscription that was marked unsent keeps processing events; when it is
+            \* sent again, the still loading references such an event brought - and what they refer to - go with it
+            LET loading == SRTSt(x, r.sp) = "loading"
+            IN SRTRes([x EXCEPT !.st = SRTPut(@, r.sp, "tosend"), !.early = IF loading THEN @ \cup {r.sp} ELSE @],
+                      IF loading THEN {[p |-> "C02", m |-> "put into a resource set (to be marked sent) while it is still loading",
+                                        kf |-> IF r.sp \in SRTBelow(x, x.wasUnsent, {}) THEN "KF-U" ELSE ""]} ELSE {})
       [] r.kind = "subSent" ->
             \* finding KF-U, further consequence: a subscription that was marked unsent keeps processing events; when it is
             \* sent again, the still loading reference such an event brought is marked sent with it
-            LET viaUnsent == \E p \in x.wasUnsent : r.sp \in SRTRefs(x, p)
+            LET viaUnsent == r.sp \in SRTBelow(x, x.wasUnsent, {})
                 loading == SRTSt(x, r.sp) = "loading"
             IN SRTRes([x EXCEPT !.st = SRTPut(@, r.sp, "sent"), !.early = IF loading THEN @ \cup {r.sp} ELSE @],
                       IF loading THEN {[p |-> "C02", m |-> "marked sent while it is still loading", kf |-> IF viaUnsent THEN "KF-U" ELSE ""]} ELSE {})
@@ -111,8 +126,10 @@ SRTStep(x0, r) ==
                                 !.rcb = SRTDecAll(@, ws)],
                       IF r.waiting # Len(ws) THEN {SRTErr("C07", "doneLoading releases " \o ToString(r.waiting) \o " ready callbacks, SubReadyOps says " \o ToString(Len(ws)))} ELSE {})
       [] r.kind = "dispose" ->
-            LET ws == SRTWait(x, r.sp) \o SRTTocol(x, r.sp)
-            IN SRTRes([x EXCEPT !.st = SRTPut(@, r.sp, "disposed"), !.wait = SRTPut(@, r.sp, <<>>), !.tocol = SRTPut(@, r.sp, <<>>),
+            \* Dispose drops what is parked in readyCallbacks; callbacks the Loaded closure has already taken (tocol) are
+            \* still collected by it
+            LET ws == SRTWait(x, r.sp)
+            IN SRTRes([x EXCEPT !.st = SRTPut(@, r.sp, "disposed"), !.wait = SRTPut(@, r.sp, <<>>),
                                 !.refs = SRTPut(@, r.sp, {}), !.rcb = SRTDropAll(@, ws), !.wasUnsent = @ \ {r.sp}, !.early = @ \ {r.sp}],
                       IF "ready" \in DOMAIN r /\ r.ready # Len(SRTWait(x, r.sp)) THEN {SRTErr("C07", "disposed with " \o ToString(r.ready) \o " parked ready callbacks, SubReadyOps says " \o ToString(Len(SRTWait(x, r.sp))))} ELSE {})
       [] OTHER -> SRTRes(x, {})
@@ -123,5 +140,5 @@ SRTQuiescent(x) ==
       kf |-> IF x.rcb[i].dropped THEN "KF-H" ELSE ""] : i \in {j \in DOMAIN x.rcb : x.rcb[j].fired = 0}}
     \cup {SRTErr("C07", "ready callbacks parked on " \o SRTName(x, sp) \o " were not resumed after it was loaded") : sp \in {s \in DOMAIN x.tocol : x.tocol[s] # <<>>}}
 
-SRTNotes == {"subRef", "subUnref", "subRefsClear", "subLoaded", "subSent", "subDeleted", "unsend", "rdyNow", "rdyOn", "rdyCollect", "rdyFire", "rdyDone", "dispose"}
+SRTNotes == {"subRef", "subUnref", "subRefsClear", "subLoaded", "subToSend", "subSent", "subDeleted", "unsend", "rdyNow", "rdyOn", "rdyCollect", "rdyFire", "rdyDone", "dispose"}
 =============================================================================
